@@ -31,11 +31,19 @@ Proof. induction k; intros; simpl; auto. Qed.
 Lemma absp_eval_arg : forall a p c, absp (eval_arg a p c) = aarg a (absp p) (absc c).
 Proof. intros [] p c; simpl; auto. destruct c as [[]|]; reflexivity. Qed.
 
+Lemma crs_int_ok : forall s (w : lworld), seed_ok s = true ->
+  crs (VInt s) w = (Some (GObj (length (heap w))),
+                    {| heap := heap w ++ [seed s]; hist := hist w; ticks := ticks w; srcs := srcs w; failed := failed w |}).
+Proof. intros s w H. unfold check_random_state. now rewrite H. Qed.
+
+Lemma crs_int_bad : forall s (w : lworld), seed_ok s = false -> crs (VInt s) w = (None, failL gstate value w).
+Proof. intros s w H. unfold check_random_state. now rewrite H. Qed.
+
 Lemma acur_eqb_eq : forall a b, acur_eqb a b = true -> a = b.
 Proof. intros [] []; simpl; congruence. Qed.
 
 Lemma crs_ticks : forall p w, ticks (snd (crs p w)) = ticks w.
-Proof. intros [] w; reflexivity. Qed.
+Proof. intros [] w; try reflexivity. simpl. destruct (seed_ok s); reflexivity. Qed.
 
 Lemma draw_obj_ticks : forall I t h w, ticks (draw_obj gstate value req draw I t h w) = ticks w.
 Proof. intros. unfold draw_obj. destruct (nth_error (heap w) h); [|reflexivity]. destruct (draw _ g). reflexivity. Qed.
@@ -43,15 +51,21 @@ Proof. intros. unfold draw_obj. destruct (nth_error (heap w) h); [|reflexivity].
 (* ---------------------------------------------------------------- check_random_state *)
 Lemma check_random_state_spec : forall w : lworld,
   crs VNone w = (Some GGlobal, w) /\
-  (forall s, fst (crs (VInt s) w) = Some (GObj (length (heap w))) /\
+  (forall s, seed_ok s = true ->
+             fst (crs (VInt s) w) = Some (GObj (length (heap w))) /\
              heap (snd (crs (VInt s) w)) = heap w ++ [seed s] /\
              nth_error (heap (snd (crs (VInt s) w))) (length (heap w)) = Some (seed s) /\
              hist (snd (crs (VInt s) w)) = hist w /\ failed (snd (crs (VInt s) w)) = failed w) /\
+  (forall s, seed_ok s = false ->
+             fst (crs (VInt s) w) = None /\ failed (snd (crs (VInt s) w)) = true /\
+             heap (snd (crs (VInt s) w)) = heap w /\ hist (snd (crs (VInt s) w)) = hist w) /\
   (forall g, crs (VGen g) w = (Some g, w)) /\
   (fst (crs VBad w) = None /\ failed (snd (crs VBad w)) = true).
 Proof.
-  intros w. repeat split; simpl; auto.
-  rewrite nth_error_app2 by lia. now rewrite Nat.sub_diag.
+  intros w. split; [reflexivity|]. split; [|split; [|split; [reflexivity | split; reflexivity]]].
+  - intros s H. rewrite (crs_int_ok s w H). simpl. repeat split; auto.
+    rewrite nth_error_app2 by lia. now rewrite Nat.sub_diag.
+  - intros s H. rewrite (crs_int_bad s w H). simpl. repeat split; auto.
 Qed.
 
 (* ---------------------------------------------------------------- the unary non-interference statement *)
@@ -103,7 +117,8 @@ Proof.
     intros c0 w0 Hc0. apply IHsk. now rewrite Hc0.
   - (* Check *)
     unfold ni_post. simpl.
-    destruct p as [|s|[|h]|]; simpl in H; inversion H; subst; simpl;
+    destruct p as [|s|[|h]|]; simpl in H; try (destruct (seed_ok s) eqn:Es; simpl in H); inversion H; subst; simpl;
+      try rewrite Es;
       eexists _, _, 1; (split; [reflexivity|]; split; [reflexivity|]; split; [simpl; lia|]; intro g; reflexivity).
   - (* Draw *)
     destruct c as [[|h]|]; simpl in H; try discriminate. inversion H; subst.
@@ -142,7 +157,7 @@ Proof.
   - destruct (runL I sk1 p c w) as [[c2 w2]|] eqn:E; [|discriminate]. eauto.
   - destruct (decide I t (hist w)); eauto.
   - eapply loop_noglob; eauto.
-  - destruct p; simpl in H; inversion H; subst; exact N.
+  - destruct p; simpl in H; try (destruct (seed_ok s)); inversion H; subst; exact N.
   - destruct c as [[|h]|]; try discriminate; inversion H; subst; auto.
     unfold draw_obj. simpl. destruct (nth_error (heap w) h); auto.
     destruct (draw _ g). unfold noglob. simpl. intros [X|X]; [discriminate|auto].
@@ -224,7 +239,7 @@ Proof.
   - apply andb_true_iff in D as [D1 D2]. unfold df_post. simpl. destruct (decide I t (hist w)); [apply (IHsk1 D1) | apply (IHsk2 D2)].
   - unfold df_post. simpl. apply loop_df. intros c0 w0. apply (IHsk D).
   - exists (fst (crs p (tickL gstate value w))), (snd (crs p (tickL gstate value w))), 1.
-    destruct p as [|s|g0|]; simpl; (split; [reflexivity|]; split; [reflexivity|]; split; [lia|]; intro g; reflexivity).
+    destruct p as [|s|g0|]; simpl; try (destruct (seed_ok s); simpl); (split; [reflexivity|]; split; [reflexivity|]; split; [lia|]; intro g; reflexivity).
   - destruct (IHsk D (eval_arg a p c) None w) as (c1 & w1 & k1 & H1 & S1 & T1 & G1).
     exists c, w1, k1. repeat split; auto. intro g. simpl. now rewrite G1.
 Qed.
@@ -239,53 +254,7 @@ Proof.
   unfold call. rewrite G1. simpl. repeat split; auto. now exists k.
 Qed.
 
-(* ---------------------------------------------------------------- histories *)
-Notation event := (event gstate value req).
-Notation runH := (run_hist gstate value req draw seed).
-
-Lemma erasable_call : forall (ip : interp) sk a, erasable gstate value req (ECall ip sk a) = true ->
-  exists s, a = RInt s /\ global_free sk PInt = true.
-Proof. intros ip sk [] H; simpl in H; try discriminate. eauto. Qed.
-
-Theorem history_results : forall (h : list event) g insts i (ip : interp) sk s,
-  nth_error h i = Some (ECall ip sk (RInt s)) -> global_free sk PInt = true ->
-  nth_error (fst (fst (runH h g insts))) i = Some (callL ip sk (HInt s)).
-Proof.
-  induction h as [|e h IH]; intros g insts i ip sk s Hn Hg.
-  - destruct i; discriminate.
-  - destruct i; simpl in Hn.
-    + inversion Hn; subst. simpl.
-      destruct (call_ni ip sk (HInt s) Hg) as (o & k & L & _ & G).
-      rewrite G. rewrite L.
-      destruct (runH h _ _) as [[os g2] i2]. reflexivity.
-    + destruct e as [ip' sk' a'|f|s']; simpl.
-      * destruct (callG _ ip' sk' (resolve gstate a' insts) g) as [o g1].
-        specialize (IH g1 (writeback gstate value a' o insts) i ip sk s Hn Hg).
-        destruct (runH h g1 _) as [[os g2] i2]. exact IH.
-      * specialize (IH (f g) insts i ip sk s Hn Hg). destruct (runH h (f g) insts) as [[os g2] i2]. exact IH.
-      * specialize (IH g (insts ++ [seed s']) i ip sk s Hn Hg). destruct (runH h g _) as [[os g2] i2]. exact IH.
-Qed.
-
-Theorem history_global : forall (h : list event) g insts,
-  snd (fst (runH h g insts)) = snd (fst (runH (erase gstate value req h) g insts)) /\
-  snd (runH h g insts) = snd (runH (erase gstate value req h) g insts).
-Proof.
-  induction h as [|e h IH]; intros g insts; [split; reflexivity|].
-  unfold erase. simpl filter. destruct (erasable gstate value req e) eqn:E; simpl negb; cbv iota.
-  - destruct e as [ip sk a|f|s']; try discriminate.
-    destruct (erasable_call ip sk a E) as (s & -> & Hg).
-    destruct (call_ni ip sk (HInt s) Hg) as (o & k & L & _ & G).
-    simpl. rewrite G. rewrite advance_id. unfold writeback.
-    specialize (IH g insts). destruct (runH h g insts) as [[os g2] i2]. exact IH.
-  - destruct e as [ip sk a|f|s']; simpl.
-    + destruct (callG _ ip sk (resolve gstate a insts) g) as [o g1].
-      specialize (IH g1 (writeback gstate value a o insts)). fold (erase gstate value req h).
-      destruct (runH h g1 _) as [[os g2] i2]. destruct (runH (erase gstate value req h) g1 _) as [[os' g2'] i2']. exact IH.
-    + specialize (IH (f g) insts). fold (erase gstate value req h).
-      destruct (runH h (f g) insts) as [[os g2] i2]. destruct (runH (erase gstate value req h) (f g) insts) as [[os' g2'] i2']. exact IH.
-    + specialize (IH g (insts ++ [seed s'])). fold (erase gstate value req h).
-      destruct (runH h g _) as [[os g2] i2]. destruct (runH (erase gstate value req h) g _) as [[os' g2'] i2']. exact IH.
-Qed.
+(* histories: Proofs/DrawsProofsSem.v (they go through the join-precise analysis, which also covers out-of-range seeds) *)
 
 End P.
 
